@@ -554,8 +554,11 @@ type result struct {
 
 // exec runs entry sequence at top level. ok=false: the trace exceeds the step
 // limit (program discarded, never handed to mosdns).
-func (rp *refProg) exec(entry int, limit int, ft *feats) (res result, steps int, ok bool) {
+func (rp *refProg) exec(entry int, preset bool, limit int, ft *feats) (res result, steps int, ok bool) {
 	st := &refState{resp: "-", steps: &steps, limit: limit, ft: ft}
+	if preset {
+		st.resp = respMarker(1, 0, 0)
+	}
 	defer func() {
 		if r := recover(); r != nil {
 			if _, is := r.(refOverflow); is {
